@@ -16,7 +16,7 @@ CONFIGS["C30"] = dict(
     thorough=dict(runs=150000, per_proc=1500, budget_s=1500),
     det_seeds=24,
     rule="histories of 10-39 operations over a record type with string/int/bool/uuid/[]string/float fields, value domains "
-         "with quotes, empty and non-ASCII strings, negative and 2^40 integers; with and without a primary key; filter lists of 0-3 "
+         "with quotes, empty and non-ASCII strings, negative and 2^40 integers, the zero UUID; with and without a primary key; filter lists of 0-3 "
          "equality/comparison filters, half of them with a nil *Filter at some position (skipped by the store; the server's callers pass such lists); "
          "non-trivial = >=4 executed operations; distinct = distinct history hash",
     real=["resources.Open/CreateIf/Insert/Read/ReadOne/Update/UpdateOne/Delete/DeleteOne/Sort/filters (reflection-driven SQL generation)", "database/sql + modernc SQLite on a real file"],
